@@ -91,6 +91,7 @@ func (o c08Op) String() string {
 }
 
 type c08Stats struct {
+	unavailable                                                         int64
 	evict2, rejected, already, ties, posFirst, posSecond, posElse, dels int64
 }
 
@@ -173,6 +174,13 @@ func runC08History(ops []c08Op, st *c08Stats) (finding, detail string, shape str
 				st.posSecond++
 			default:
 				st.posElse++
+			}
+			// the client marks a freshly discovered region unavailable before
+			// inserting it, and cached regions are unavailable during every outage:
+			// availability must not influence what the cache decides
+			if (step+len(ops))%2 == 0 {
+				obj.MarkUnavailable()
+				st.unavailable++
 			}
 			before := cache.List()
 			overlaps, replaced := cache.Put(obj)
@@ -435,6 +443,7 @@ func runC08(c *fw.Ctx) {
 	c.Count("evictions_of_2_or_more", st.evict2)
 	c.Count("rejected_inserts", st.rejected)
 	c.Count("already_cached_inserts", st.already)
+	c.Count("inserts_of_unavailable_regions", st.unavailable)
 	c.Count("tie_inserts", st.ties)
 	c.Count("insert_before_first", st.posFirst)
 	c.Count("insert_before_second", st.posSecond)
